@@ -26,16 +26,33 @@ def g_ns(p):
         gbool(p["queue_empty"])))
 
 
+def fits_empty(worker, req):
+    """does the strategy request fit this worker when it is empty (explicit unit ids respected)"""
+    units = {}
+    for r in worker["resources"]:
+        n, _, i = r["name"].partition(":")
+        units.setdefault(n, {})
+        units[n][i or "_"] = units[n].get(i or "_", 0) + r["quantity"]
+    taken = {}
+    for k, q in req.items():
+        n, _, i = k.partition(":")
+        if i and i != "any":
+            if units.get(n, {}).get(i, 0) < q:
+                return False
+            taken[n] = taken.get(n, 0) + q
+    for k, q in req.items():
+        n, _, i = k.partition(":")
+        if not i or i == "any":
+            if sum(units.get(n, {}).values()) - taken.get(n, 0) < q:
+                return False
+    return True
+
+
 def feasible_world(w):
-    """every strategy-less detail aside: each task has a strategy that fits some worker of the empty cluster"""
-    caps = simgen.capacity(w["workers"])
+    """each task has a strategy that fits some worker of the empty cluster"""
+    workers = [wk for p in w["workers"] for wk in p["workers"]]
     for p in w["workload"]["profiles"]:
-        ok = False
-        for s in p["execution_strategies"]:
-            req = {k.split(":")[0]: v for k, v in s["resource_requirements"].items()}
-            if any(all(c.get(n, 0) >= q for n, q in req.items()) for c in caps):
-                ok = True
-        if not ok:
+        if not any(fits_empty(wk, s["resource_requirements"]) for s in p["execution_strategies"] for wk in workers):
             return False
     return True
 
